@@ -8,6 +8,8 @@
 (*    (final bytes, only where the                                          *)
 (*    classifier needs them), nest (kinds of deep nesting in the input),    *)
 (*    rep (the token or padding repeated >= 10^4 times in the input, or ""),*)
+(*    insx (the inserted key whose integer value equals the refused size),  *)
+(*    insb (the first inserted key with a huge integer value), or "",       *)
 (*    wzero (xref stream with three zero widths)]                           *)
 (* kind: ok | err (the call returned) | panic | stackoverflow | allocabort  *)
 (*       (an allocation failed and the process aborted) | abort | hang.     *)
@@ -117,7 +119,10 @@ AskedFor(rec) ==
                  ELSE {}
         pr == Priority(rec.kind)
         hit == SelectInSeq(pr, LAMBDA n : n \in names)
-    IN IF hit = 0 THEN "derived" ELSE pr[hit]
+        \* an inserted key explains the request when its value is the size asked for, or when nothing else does
+    IN IF rec.insx # "" THEN "insert." \o rec.insx
+       ELSE IF hit = 0 \/ pr[hit] = "other" THEN (IF rec.insb # "" THEN "insert." \o rec.insb ELSE IF hit = 0 THEN "derived" ELSE "other")
+       ELSE pr[hit]
 
 JoinKinds(ks) == FoldLeft(LAMBDA acc, k : IF acc = "" THEN k ELSE acc \o "+" \o k, "", ks)
 
